@@ -9,24 +9,51 @@ the path manager adds up: ``deterministic_path(times) + StochasticSDEPath.value(
 
 Sub-checks (all lattice sweeps; a case = one configuration, the scripted driver paths are enumerated inside it)
 
- euler     drivers {1-d HEM, 1-d CGMY y=1.2, 2-d Clayton copula of HEM x VG; thorough: also HEM x CGMY y=1.2}
+ euler     drivers, full coefficient menu {1-d HEM, 1-d CGMY y=1.2, 2-d Clayton copula of HEM x VG; thorough: also HEM x CGMY y=1.2}
            x coefficient functions {Constant (default a=None; m=1,2,3 rows), DiagX (d=1,2), LiborSDEFunction (through
              LevyLiborModel with list tenors, and directly with array tenors), ForwardMarketSDEFunction (through
              LevyForwardModel, directly, and through the create_levy_forward_market_model helpers)}
-           x two float initial values (plus the Python int x0=1 for Constant, 1-d HEM)
+           x two float initial values
+           drivers, reduced menu {default function, DiagX, one rate model; first initial value}:
+             1-d VG (pure jump, finite variation: identically zero diffusion path), and the RE-INITIALISED twins
+             (mc.alphabets ``via: "reinit"``: parameter object built with other values, attributes re-assigned,
+             ``initialisation()``, model constructor) of HEM, CGMY y=1.2 and of both margins of the copula (quick: levels 0, 1);
+             thorough: also the twin of VG and CGMY y=0.5.  The twin is compared with the chain drift of the DIRECTLY built driver.
+           rarely used construction routes (1-d HEM unless said): the Python int x0=1; x0 omitted (default 0.0, on HEM and on
+             the copula: Constant(m=1, d=2)); an integer numpy array as x0 (copula, Constant m=2) - words of length <= 2;
+             LevyLiborModel with ONE float as its curve (m=1, tenors (1,2)) at every level
            x levels {0 (single process, standalone and CouplingSDE at level 0), 1, 2 (coupled pair)}
-           x for the coupled pair, three HISTORIES by which the object reaches its level (each on its own fresh model):
-               coupled            fast-forward: next_level() `level` times, nothing simulated in between
-               coupled-hist       Engine.price_with_constant_mc_paths_and_level: one object; at every intermediate level
-                                  (0 included) pre_computation, one scripted two-step word simulated, then next_level()
-               coupled-hist-copy  Engine.price: as before, but the object is copy.deepcopy-ed after it has simulated and
-                                  next_level() is called on the copy
-             (state cached on the object by a simulation at level l-1 must not leak into level l; thorough: the two history
-              variants run the words of length <= 2)
+           x HISTORIES by which the object reaches its state (each on its own fresh model):
+             level 0   single              built, initialised, pre-computed
+                       single-reused       a second Engine.price on one standard engine: the process simulated a word, its cost
+                                           was read and reset, initialisation() + pre_computation() again with a product of
+                                           ANOTHER maturity; the object used is a copy.deepcopy of it (pool route)
+                       coupling-l0         CouplingSDE at level 0
+                       coupling-l0-reused  = coupled-reprice at level 0 (below)
+             level>=1  coupled             fast-forward: next_level() `level` times, nothing simulated in between
+                       coupled-hist        Engine.price_with_constant_mc_paths_and_level: one object; at every intermediate level
+                                           (0 included) pre_computation, one scripted two-step word simulated, cost read, next_level()
+                       coupled-hist-copy   Engine.price: as before, but the object is copy.deepcopy-ed after it has simulated and
+                                           next_level() is called on the copy
+                       coupled-reprice     a second Engine.price on one multilevel engine: the engine's coupling object is
+                                           initialised, a deep copy climbs to `level` as in coupled-hist-copy (simulating at every
+                                           level, `level` included); then the SAME engine object is initialised and pre-computed
+                                           with a product of another maturity, a new list of path managers is started and a new
+                                           deep copy climbs again; that one is used
+             (state cached on the object by a simulation at level l-1, or by an earlier pricing, must not leak; the *-reused /
+              *-reprice objects run the words of length <= 2; thorough: so do coupled-hist and coupled-hist-copy)
+           x a SECOND OBJECT OF THE SAME CLASSES used in between (``other_case``): same driver family, coefficient function class,
+             model class, process class and level, every parameter different (driver parameters - hence chain drifts -, copula
+             parameters, initial value, constant, volatility matrix, tenors).  It is built FIRST, runs 12 words (8 of length 1, 4 of
+             length 2) FIRST, the objects of the case run their words of length 1, the second object runs its 12 words again, then
+             the rest.  The second object is compared with its own oracle too (names ``other-single``, ``other-coupling-l0``,
+             ``other-coupled``): state kept at class / module level / in a shared default argument by whoever comes first shows
+             on one of the two, whatever an earlier case left in this worker process.
            x scripted driver paths: all words of length 1..3 over the step alphabet DT x DL x DW with
              quick     DT={0.25,1.0}       DL={-0.2,0.1}       DW={-0.3,0.4}            (8 letters,   584 words)
              thorough  DT={0.25,1.0,0.5}   DL={-0.2,0.1,0.0*}  DW={-0.3,0.4,0.0}        (27 letters, 20439 words)
-             (2-d drivers: vectors; coupled pair: fine and coarse letters differ; * coupled third letter: fine 0.05, coarse 0).
+             (2-d drivers: vectors; coupled pair: fine and coarse letters differ; * coupled third letter: fine 0.05, coarse 0),
+             followed by the words of length 1 AGAIN on the same objects (a shorter path after the longest ones).
            The driver path the scheme consumes is REPLACED by the scripted ``StochasticJumpPath(times, diffusion, jumps)``
            (``markov_chain.simulate_one_path`` for the single process, ``driver_coupling_process.simulate_one_path_with_coupling``
            for the pair), so the check is a deterministic function of the word.  numpy's global generator is replaced by a
@@ -34,38 +61,63 @@ Sub-checks (all lattice sweeps; a case = one configuration, the scripted driver 
            Oracle, for the single process and for both components of the pair (each with its own increments and its own
            driver drift: fine = drift of a *freshly built* driver chain on the grid refined `level` times, coarse = the one
            refined `level-1` times):
-             times    returned times == driver times (exactly)
+             times    returned times == driver times (exactly); value arrays as long as the times
              step     X_{i+1} = X_i + (sde drift(t_i,X_i) + a(t_i,X_i) mu) dt_i + a(t_i,X_i)(dW_i + dL_i), every i
              closed   Constant: X_i = x0 + a (mu t_i + W_i + L_i);  DiagX: X_i = x0 * prod_{j<i} (1 + mu dt_j + dW_j + dL_j)
            a(t,x) in the oracle: written out here for Constant (the constant matrix) and DiagX (diag(x)), which the statement
            defines; for the two rate functions the statement does not define a, and the oracle evaluates the model's own
            function object on its own state (a column, component by component).  The sde drift is zero except for
            LevyLiborModel, where the oracle calls the process's own ``sde_drift`` on its own state (the statement does not say
-           what the Libor drift is; only when and where it is evaluated is checked).
+           what the Libor drift is; only when and where it is evaluated is checked - and, by ``pure``, that it is a function).
            Tolerance |x-y| <= 1e-9 * max|X| (maximum over the path, which contains x0): the two sides differ by
            re-association only.
- captured  the same configurations (first initial value, same three histories; the warm-up path at the intermediate levels is
-           simulated by the real driver), but the real driver is left in place and wrapped so that the path
-           it hands over is recorded; 6 paths per configuration under a *scripted* generator (numpy.random.poisson returns
-           0,1,3,6,2,4 jumps in turn, uniform/random_sample a Weyl sequence, normal a 5-cycle).  Checks that exactly one driver
-           path is consumed per SDE path, that the real path has the array layout the scripted words use (times (n,), values
-           (d?,n) / (2,d?,n)), and evaluates the same oracle on it.  This binds the scripted words to the real interface.
- df        LevyForwardModel, LevyLiborModel with rates {flat 2%, rising, one zero rate} x tenors {(1,2,3), (5,...,10)}
-           (thorough: also first rate zero, flat 10%, a single period (1,2)); mesh = 401 equidistant points of [0, last tenor]
-           plus every tenor and tenor -+ 1e-9 (clipped to [0, last tenor]).  df(0) = 1, df finite and > 0, df non-increasing
-           along the mesh (slack 4 ulp), |df(T +- 1e-9) - df(T)| <= 1e-7 at every tenor.  The other model classes (Levy model,
-           exponential model with r in {0, 0.02, 0.05}, copula model, plain LevyDrivenSDEModel) on a mesh of [0,10].
+ captured  the same configurations (first initial value, same histories; the warm-up paths are simulated by the real driver, the
+           re-initialisations with the second maturity act on the real driver), but the real driver is left in place and
+           wrapped so that the path it hands over is recorded; 6 paths per object under a *scripted* generator
+           (numpy.random.poisson returns 0,1,3,6,2,4 jumps in turn - shorter paths follow longer ones -, uniform/random_sample a
+           Weyl sequence, normal a 5-cycle).  Checks that exactly one driver path is consumed per SDE path, that the real path
+           has the array layout the scripted words use (times (n,), values (d?,n) / (2,d?,n)), and evaluates the same oracle on
+           it.  This binds the scripted words to the real interface.  (No second object here.)
+ pure      a(t, x) of LiborSDEFunction / ForwardMarketSDEFunction (built directly and through the two model constructors), the
+           Libor drift ``MarkovChainLevyLiborModel.sde_drift(t, x)`` and ``df(t)`` of the two rate models are FUNCTIONS of their
+           arguments and of what the object was constructed with.  One case, 7 components x 12 times in [0, 4] (before, at,
+           between and after the tenors) x states {two columns (3,1), their (2,3,1) stack}.  Two argument sets ("main": tenors
+           (1,2,3,4), HEM; "other": tenors (0.75,1.75,3.25,4), every volatility, rate and driver parameter different; same h).
+           Reference = the library itself in a FRESH INTERPRETER PROCESS that builds one argument set alone and evaluates in
+           ascending time order (no definition of the functions is assumed).  History in this process: second object built first
+           and read first; main read in DESCENDING time order; main read again; a deepcopy of main; a freshly built twin of main;
+           second object read again descending.  Every table must equal its reference (rtol 1e-12, same shapes).  If no fresh
+           process can be started the case reports a cap, never a violation.
+ df        LevyForwardModel, LevyLiborModel with rates {flat 2%, rising, one zero rate} x tenors {(1,2,3), (5,...,10),
+           (0.5,1.25,3) periods of unequal length, (0,1,2.5) first tenor at time 0} (thorough: also first rate zero, flat 10%, a
+           single period (1,2), quarterly (0.25,...,1)); plus ONE float as the curve (tenors (0.5,1.5)) and numpy arrays as rates
+           and tenors; mesh = 401 equidistant points of [0, last tenor] plus every tenor and tenor -+ 1e-9 (clipped to [0, last
+           tenor]).  df(0) = 1, df finite and > 0, df non-increasing along the mesh (slack 4 ulp), |df(T +- 1e-9) - df(T)| <= 1e-7
+           at every tenor.  History on the re-used model: a second model of the same class (another curve, same tenors) is built
+           and read first and is read in between; the mesh is read a second time in DESCENDING order: same value as the first
+           reading (exactly), and |df(t + 1e-9) - df(t)| <= 1e-7 at EVERY mesh point; df(T) for T an int / numpy int / numpy float
+           equals df(float(T)) (rtol 1e-12).  The other model classes (Levy model, exponential model with r in {0, 0.02, 0.05},
+           copula model, plain LevyDrivenSDEModel) on a mesh of [0,10]; every exponential family of mc.alphabets.model_specs
+           (HEM, Merton, VG, CGMY y in {-0.5,...,1.5}, Black-Scholes) each followed by its re-initialised twin (none for
+           Black-Scholes: no parameter object); their second object has another rate r.
 
-Violation keys: C16:euler:<single|coupling-l0|coupled|coupled-hist|coupled-hist-copy[:fine|:coarse]>:<coefficient function[:how built]>:<failure>:driver-d=<d>:
-<t<first-tenor | t>=first-tenor | no-tenors>:<x0=float|x0=int>[:captured]   and   C16:df:<model class>:<failure>:<where>[:side].
-A violation of the euler sub-check carries the failing word (case field ``only_word``): its replay runs that word alone.
+Violation keys: C16:euler:<[other-]single|single-reused|coupling-l0|coupling-l0-reused|coupled|coupled-hist|coupled-hist-copy|
+coupled-reprice[:fine|:coarse]>:<coefficient function[:how built]>:<failure>:driver-d=<d>[-reinit]:<t<first-tenor | t>=first-tenor |
+no-tenors>:<x0=float|x0=int|x0=default>[:captured],   C16:pure:<component>:<value-depends-on-history|raises-X>:<step>   and
+C16:df:<model class>:<failure>:<where>[:side|:time-type=..].
+A violation of the euler sub-check carries the failing word(s) (case field ``only_words``; for the "again" phase the last long
+word and the short one): its replay runs them alone, after the 12 words of the second object.
 For the tenor-based functions the class ``t>=first-tenor`` means that some step of the word starts at or after the first
 tenor (the scripts only price products maturing at the first tenor, so only ``t<first-tenor`` is reached by them).
 
-Outside the alphabet (statement silent): times beyond the last tenor (df raises IndexError there); negative rates; the
-value of the rate coefficient functions and of the Libor drift themselves; the decomposition of the solution into
-drift / diffusion / jump parts (only the sum is compared); the maximum-step epsilon handed to the driver (C15); antithetic
-paths (StochasticSDEPath.antithetic_value raises by construction); drivers, steps and increments outside the menus.
+Outside the alphabet (statement silent): times beyond the last tenor (df raises IndexError there); negative rates; unsorted
+tenors; the value of the rate coefficient functions and of the Libor drift themselves (only: evaluated at (t_i, X_i), and pure);
+the decomposition of the solution into drift / diffusion / jump parts (only the sum is compared); the maximum-step epsilon handed
+to the driver (C15); antithetic paths (StochasticSDEPath.antithetic_value raises by construction); drivers, steps and
+increments outside the menus (no 3-d copula: minutes per construction); the public attribute ``model.x0`` RE-ASSIGNED after a
+CouplingSDE was built on the model (no library route does it; the coupled levels then start from the old value kept in the
+coupling object - latent, not judged); the Libor model on a copula driver gets neither the re-priced histories nor a second
+object (2 s of double quadrature per initialisation; the 1-d drivers cover the same classes).
 """
 from __future__ import annotations
 
@@ -81,20 +133,25 @@ from mc import core
 PID = "C16"
 LEVEL = "exploration"
 RULE = (
-    "complete product drivers x coefficient functions x initial values x levels, and inside every configuration every word "
-    "of length 1..3 over the stated step alphabet as the driver path; complete product model class x rates x tenors with "
-    "every point of the stated time mesh; a case is non-trivial when at least one solution value (or discount factor) was "
-    "compared with the oracle; distinct = distinct case dict"
+    "complete product drivers x coefficient functions x initial values x levels x histories (fresh, re-used / re-priced with a "
+    "second product, same-object, deepcopy), each with a second object of the same classes built and used in between, and inside "
+    "every configuration every word of length 1..3 over the stated step alphabet as the driver path (then the words of length 1 "
+    "again); complete product model class x rates x tenors with every point of the stated time mesh, read twice; one purity case "
+    "(7 components x 12 times x 6 history steps against two fresh interpreter processes); a case is non-trivial when at least one "
+    "solution value (or discount factor, or function value) was compared with the oracle; distinct = distinct case dict"
 )
 ASSUMPTIONS = [
     "the scheme is observed through MarkovChainSDE.markov_chain.simulate_one_path / "
     "CouplingSDE.driver_coupling_process.simulate_one_path_with_coupling (the seams named in observe_at), replaced by scripted "
     "StochasticJumpPath objects whose array layout is bound to the real drivers by the 'captured' sub-check",
     "driver drifts of the oracle come from freshly built MarkovChainProcess / MarkovChainLevyCopula objects on freshly built "
-    "grids refined level / level-1 times (which level's drift is used is checked, not its value: that is C04)",
+    "grids refined level / level-1 times (which level's drift is used is checked, not its value: that is C04); a re-initialised "
+    "twin of a driver is compared with the drift of the directly constructed driver",
     "for LiborSDEFunction / ForwardMarketSDEFunction and the Libor sde drift the oracle evaluates the library's own function on "
-    "the oracle's own state; their values are not checked",
+    "the oracle's own state; their values are not checked, only (sub-check pure) that they equal what the library returns in a "
+    "fresh interpreter process that builds the same arguments alone",
     "captured sub-check: numpy.random.{poisson,uniform,random_sample,random,normal} are replaced by scripted sequences",
+    "pure sub-check: sys.executable can be started as a child process with the environment of the runner",
 ]
 CHUNK = 1
 
@@ -107,7 +164,47 @@ RTOL = 1e-9
 
 DRIVERS = ["hem", "cgmy12", "cop-hem-vg"]
 DRIVERS_THOROUGH = DRIVERS + ["cop-hem-cgmy12"]  # infinite variation copula: non-trivial diffusion matrix, epsilon < 1
-DRIVER_DIM = {"hem": 1, "cgmy12": 1, "cop-hem-vg": 2, "cop-hem-cgmy12": 2}
+# reduced-menu drivers: a pure-jump driver of finite variation (identically zero diffusion path) and the "reinit" twins
+# (mc.alphabets.with_reinit: same parameter values reached through a re-assigned and re-initialised parameter object)
+DRIVERS_REDUCED = ["vg", "hem@reinit", "cgmy12@reinit", "cop-hem-vg@reinit"]
+DRIVERS_REDUCED_THOROUGH = DRIVERS_REDUCED + ["vg@reinit", "cgmy05"]
+DRIVER_SPECS = {
+    "hem": {"family": "hem", "exp": False, "params": {}},
+    "cgmy12": {"family": "cgmy", "exp": False, "params": {"c": 1.0, "g": 15.0, "m": 20.0, "y": 1.2}},
+    "cgmy05": {"family": "cgmy", "exp": False, "params": {"c": 1.0, "g": 15.0, "m": 20.0, "y": 0.5}},
+    "vg": {"family": "vg", "exp": False, "params": {}},
+    # drivers of the SECOND object of the same class used in between (other parameters: another chain drift)
+    "hem-b": {"family": "hem", "exp": False, "params": {"sigma": 0.08, "p": 0.4, "eta1": 15.0, "eta2": 30.0, "intensity": 2.0}},
+    "cgmy12-b": {"family": "cgmy", "exp": False, "params": {"c": 0.5, "g": 6.0, "m": 6.0, "y": 1.2}},
+    "cgmy05-b": {"family": "cgmy", "exp": False, "params": {"c": 0.5, "g": 6.0, "m": 6.0, "y": 0.5}},
+    "vg-b": {"family": "vg", "exp": False, "params": {"sigma": 0.2, "nu": 0.2, "theta": -0.15}},
+}
+COPULA_MARGINS = {"cop-hem-vg": ["hem", "vg"], "cop-hem-cgmy12": ["hem", "cgmy12"], "cop-hem-vg-b": ["hem-b", "vg-b"],
+                  "cop-hem-cgmy12-b": ["hem-b", "cgmy12-b"]}
+COPULA_PARAMS = {"cop-hem-vg-b": {"theta": 1.2, "eta": 0.5}, "cop-hem-cgmy12-b": {"theta": 1.2, "eta": 0.5}}
+
+
+def _base(drv):
+    return drv.split("@")[0]
+
+
+def _reinit(drv):
+    return drv.endswith("@reinit")
+
+
+class _Dim(dict):
+    def __missing__(self, drv):
+        return 2 if _base(drv) in COPULA_MARGINS else 1
+
+
+DRIVER_DIM = _Dim()
+
+
+def other_driver(drv):
+    """Driver of the second object of the same class: same family, other parameters."""
+    base = _base(drv)
+    return base[:-2] if base.endswith("-b") else base + "-b"
+
 
 TENORS_SHORT = [1, 2, 3]
 
@@ -137,7 +234,7 @@ def _letters(d, coupled, tier):
 
 def _x0_menu(m, rates):
     if rates:
-        return {2: [[0.02, 0.02], [0.01, 0.03]]}[m]
+        return {1: [[0.02], [0.03]], 2: [[0.02, 0.02], [0.01, 0.03]], 3: [[0.02, 0.02, 0.02], [0.01, 0.03, 0.02]]}[m]
     return {1: [1.5, -0.75], 2: [[1.5, 0.5], [-0.75, 2.0]], 3: [[1.5, 0.5, 1.0], [-0.75, 2.0, 0.25]]}[m]
 
 
@@ -159,6 +256,43 @@ def coef_specs(d):
     return out
 
 
+def coef_specs_reduced(drv):
+    """Menu of the reduced-menu drivers (DRIVERS_REDUCED): the default function, DiagX and one rate model.  The Libor model
+    on a copula driver costs a double quadrature per construction (6 s), so the copula twin takes the forward model."""
+    d = DRIVER_DIM[drv]
+    rate = {"kind": "libor-model", "m": 2, "tenors": TENORS_SHORT} if d == 1 and _base(drv) != "vg" else \
+        {"kind": "forward-model", "m": 2, "tenors": TENORS_SHORT}
+    return [{"kind": "default", "m": d}, {"kind": "diagx", "m": d}, rate]
+
+
+SCALAR_LIBOR = {"kind": "libor-model", "m": 1, "tenors": [1, 2], "scalar": True}  # `libor_rates` given as one float
+
+OTHER_TENORS = {3: [0.75, 1.75, 3.25], 2: [0.75, 2.5]}
+
+
+def other_case(case):
+    """The configuration of the SECOND object of the same classes that is built before, and used in between, the objects of
+    `case`: same classes (driver family, coefficient function class, model class, process class, level), every parameter
+    different (driver parameters hence chain drifts, initial value, constant, volatility matrix, tenors)."""
+    c = dict(case["coef"])
+    kind = c["kind"]
+    if kind == "constant":
+        c["c"] = -1.5 * c["c"]
+    elif kind == "forward-helper":  # the helper has no parameter: the same function class through the model constructor
+        c = {"kind": "forward-model", "m": 2, "tenors": OTHER_TENORS[3], "sigma_scale": 0.6}
+    elif "sigma_scale" in c:  # the second object of a second object (replay of a violation found on it): back again
+        c["tenors"] = {3: TENORS_SHORT, 2: [1, 2]}[len(c["tenors"])]
+        del c["sigma_scale"]
+    elif "tenors" in c:
+        c["tenors"] = OTHER_TENORS[len(c["tenors"])]
+        c["sigma_scale"] = 0.6
+    x0 = case["x0"]
+    x0 = 1 if x0 in (0, None, "int", "default", "int-array") else 0
+    out = {"sub": case["sub"], "driver": other_driver(case["driver"]), "coef": c, "x0": x0, "level": case["level"],
+           "tier": case["tier"]}
+    return out
+
+
 def coef_label(c, d):
     k = c["kind"]
     if k == "default":
@@ -172,33 +306,49 @@ def coef_label(c, d):
             "forward-helper": "ForwardMarketSDEFunction:helper"}[k]
 
 
-def _sigma(m, d):
+def _sigma(m, d, scale=1.0):
     base = np.array([[0.50, 1.50], [0.80, 1.25], [1.00, 1.00], [1.25, 0.80], [1.50, 0.50]])
+    if scale != 1.0:  # the second object: other entries in every row
+        return (scale * base[::-1])[:m, :d].copy()
     return base[:m, :d].copy()
 
 
+DF_OTHER_MODELS = ["levy-hem", "levy-cgmy12", "copula", "sde-plain", "exp-hem:0.0", "exp-hem:0.02", "exp-cgmy12:0.05", "exp-bs:0.02",
+                   "exp-copula:0.02"]
+
+
 def cases(tier):
+    from mc import alphabets as A
+
     out = []
+    thorough = tier == "thorough"
     # ---- df (cheapest first)
-    rate_menu = ["flat2", "rising", "one-zero"] + (["first-zero", "flat10"] if tier == "thorough" else [])
-    tenor_menu = [[1, 2, 3], [5, 6, 7, 8, 9, 10]] + ([[1, 2]] if tier == "thorough" else [])
+    rate_menu = ["flat2", "rising", "one-zero"] + (["first-zero", "flat10"] if thorough else [])
+    # unit periods as the library's helpers have them; periods of unequal lengths; a first tenor at time 0
+    tenor_menu = [[1, 2, 3], [5, 6, 7, 8, 9, 10], [0.5, 1.25, 3.0], [0.0, 1.0, 2.5]] + ([[1, 2], [0.25, 0.5, 0.75, 1.0]] if thorough else [])
     for cls in ("LevyForwardModel", "LevyLiborModel"):
         for tenors in tenor_menu:
             for rates in rate_menu:
                 if len(tenors) == 2 and rates in ("one-zero", "first-zero"):
                     continue
-                for drv in (["hem"] if tier == "quick" else ["hem", "cop-hem-vg"]):
+                for drv in (["hem"] if not thorough else ["hem", "cop-hem-vg"]):
                     out.append({"sub": "df", "model": cls, "tenors": tenors, "rates": rates, "driver": drv})
-    for other in ("levy-hem", "levy-cgmy12", "copula", "sde-plain", "exp-hem:0.0", "exp-hem:0.02", "exp-cgmy12:0.05",
-                  "exp-bs:0.02", "exp-copula:0.02"):
+        # rarely used construction routes: one float as the curve (one period); numpy arrays as rates and tenors
+        out.append({"sub": "df", "model": cls, "tenors": [0.5, 1.5], "rates": "scalar2", "driver": "hem"})
+        out.append({"sub": "df", "model": cls, "tenors": [1, 2, 3], "rates": "rising", "driver": "hem", "args": "array"})
+    for other in DF_OTHER_MODELS:
         out.append({"sub": "df", "model": other})
+    # every exponential family of the shared alphabet, each followed by its re-initialised twin
+    for spec in A.with_reinit(A.model_specs(tier, families=("hem", "merton", "vg", "cgmy", "bs"), exp=(True,))):  # (no twin for Black-Scholes: no parameter object)
+        out.append({"sub": "df", "model": "spec", "spec": spec})
+    # ---- purity of the coefficient functions, of the Libor drift and of df (references from fresh interpreter processes)
+    out.append({"sub": "pure"})
     # ---- euler + captured
     for sub in ("euler", "captured"):
         for level in (0, 1, 2):
-            for drv in (DRIVERS_THOROUGH if tier == "thorough" else DRIVERS):
+            for drv in (DRIVERS_THOROUGH if thorough else DRIVERS):
                 d = DRIVER_DIM[drv]
                 for c in coef_specs(d):
-                    rates = c["kind"] not in ("default", "constant", "diagx")
                     if c["kind"] == "forward-helper":
                         x0s = [None]
                     else:
@@ -208,9 +358,24 @@ def cases(tier):
                     for x0i in x0s:
                         base = {"sub": sub, "driver": drv, "coef": c, "x0": x0i, "level": level, "tier": tier}
                         out.append(base)
+            # reduced menus: pure-jump driver, re-initialised twins (levels 0 and 1 in quick), one float as the Libor curve
+            for drv in (DRIVERS_REDUCED_THOROUGH if thorough else DRIVERS_REDUCED):
+                if level == 2 and _reinit(drv) and not thorough:
+                    continue
+                for c in coef_specs_reduced(drv):
+                    if sub == "captured" and _reinit(drv) and c["kind"] != "default":
+                        continue
+                    out.append({"sub": sub, "driver": drv, "coef": c, "x0": 0, "level": level, "tier": tier})
+            out.append({"sub": sub, "driver": "hem", "coef": SCALAR_LIBOR, "x0": 0, "level": level, "tier": tier})
         if sub == "euler":
             for level in (0, 1):
                 out.append({"sub": "euler", "driver": "hem", "coef": {"kind": "constant", "m": 1, "c": 2.0}, "x0": "int",
+                            "level": level, "tier": tier, "max_steps": 2})
+                # x0 omitted (the default 0.0, m = 1) on a 1-d and on a 2-d driver; an integer array as x0
+                for drv in ("hem", "cop-hem-vg"):
+                    out.append({"sub": "euler", "driver": drv, "coef": {"kind": "default", "m": 1}, "x0": "default",
+                                "level": level, "tier": tier, "max_steps": 2})
+                out.append({"sub": "euler", "driver": "cop-hem-vg", "coef": {"kind": "constant", "m": 2, "c": 2.0}, "x0": "int-array",
                             "level": level, "tier": tier, "max_steps": 2})
     return out
 
@@ -224,27 +389,21 @@ def _quiet():
 
 
 def make_driver(name):
-    from rpylib.model.model import ModelType
-    from rpylib.model.utils import create_clayton_copula, create_levy_copula_model, create_levy_model
+    from mc import alphabets as A
+    from rpylib.model.utils import create_clayton_copula, create_levy_copula_model
 
-    if name == "hem":
-        return create_levy_model(ModelType.HEM)()
-    if name == "cgmy12":
-        return create_levy_model(ModelType.CGMY)(c=1.0, g=15.0, m=20.0, y=1.2)
-    if name in ("cop-hem-vg", "cop-hem-cgmy12"):
-        return create_levy_copula_model(models=_margins(name), copula=create_clayton_copula())
+    base = _base(name)
+    if base in DRIVER_SPECS:
+        spec = DRIVER_SPECS[base]
+        return A.make_model(dict(spec, via="reinit") if _reinit(name) else spec)
+    if base in COPULA_MARGINS:
+        return create_levy_copula_model(models=_margins(name), copula=create_clayton_copula(**COPULA_PARAMS.get(base, {})))
     raise ValueError(name)
 
 
 def _margins(name):
-    from rpylib.model.model import ModelType
-    from rpylib.model.utils import create_levy_model
-
-    if name == "cop-hem-vg":
-        return [create_levy_model(ModelType.HEM)(), create_levy_model(ModelType.VG)()]
-    if name == "cop-hem-cgmy12":
-        return [create_levy_model(ModelType.HEM)(), create_levy_model(ModelType.CGMY)(c=1.0, g=15.0, m=20.0, y=1.2)]
-    raise ValueError(name)
+    suffix = "@reinit" if _reinit(name) else ""
+    return [make_driver(mg + suffix) for mg in COPULA_MARGINS[_base(name)]]
 
 
 def make_model(drv, c, x0i):
@@ -264,12 +423,18 @@ def make_model(drv, c, x0i):
         return model, np.array([0.02] * 5)
     driver = make_driver(drv)
     rates = kind not in ("default", "constant", "diagx")
+    scale = c.get("sigma_scale", 1.0)
+    if x0i == "default":  # x0 omitted: the constructor's default 0.0 (and with it the default coefficient function)
+        return S.LevyDrivenSDEModel(driver=driver), np.array([0.0])
     if x0i == "int":
         x0_arg, x0 = 1, np.array([1.0])
+    elif x0i == "int-array":  # an integer numpy array as initial value
+        x0_arg = np.array([1, 2, 3][:m])
+        x0 = x0_arg.astype(float)
     else:
         v = _x0_menu(m, rates)[x0i]
         x0 = np.atleast_1d(np.array(v, dtype=float))
-        x0_arg = float(v) if m == 1 else np.array(v, dtype=float)
+        x0_arg = float(np.ravel(v)[0]) if m == 1 else np.array(v, dtype=float)
     if kind == "default":
         model = S.LevyDrivenSDEModel(driver=driver, x0=x0_arg)
     elif kind == "constant":
@@ -277,14 +442,15 @@ def make_model(drv, c, x0i):
     elif kind == "diagx":
         model = S.LevyDrivenSDEModel(driver=driver, x0=x0_arg, a=S.DiagX(dimension=d))
     elif kind == "libor-model":
-        model = LevyLiborModel(libor_rates=list(v), tenors=list(c["tenors"]), sigma=_sigma(m, d), driver=driver)
+        rates_arg = float(v[0]) if c.get("scalar") else list(v)
+        model = LevyLiborModel(libor_rates=rates_arg, tenors=list(c["tenors"]), sigma=_sigma(m, d, scale), driver=driver)
     elif kind == "forward-model":
-        model = LevyForwardModel(ois_rates=list(v), tenors=list(c["tenors"]), sigma=_sigma(m, d), driver=driver)
+        model = LevyForwardModel(ois_rates=list(v), tenors=list(c["tenors"]), sigma=_sigma(m, d, scale), driver=driver)
     elif kind == "libor-direct":
-        a = S.LiborSDEFunction(sigma=_sigma(m, d), tenors=np.array(c["tenors"], dtype=float))
+        a = S.LiborSDEFunction(sigma=_sigma(m, d, scale), tenors=np.array(c["tenors"], dtype=float))
         model = S.LevyDrivenSDEModel(driver=driver, x0=x0_arg, a=a)
     elif kind == "forward-direct":
-        a = S.ForwardMarketSDEFunction(sigma=_sigma(m, d), tenors=np.array(c["tenors"], dtype=float))
+        a = S.ForwardMarketSDEFunction(sigma=_sigma(m, d, scale), tenors=np.array(c["tenors"], dtype=float))
         model = S.LevyDrivenSDEModel(driver=driver, x0=x0_arg, a=a)
     else:
         raise ValueError(kind)
@@ -315,8 +481,21 @@ def make_grid(model):
     return CTMCUniformGrid(h=H0, model=model)
 
 
-def build_single(model, d, maturity):
-    """Standalone process, as the standard engine uses it."""
+def _second_maturity(maturity):
+    return 0.5 * maturity
+
+
+def build_single(model, d, maturity, history="fresh", warm=None):
+    """Standalone process, as the standard engine uses it. -> (process, warm-up errors)
+
+    history   "fresh":  built, initialised and pre-computed once;
+              "reused": a second Engine.price on one standard engine, with another product - the process has simulated a
+                        path (warm(proc, 0)), its simulation cost was read and reset, then initialisation() and
+                        pre_computation() are called again with a product of ANOTHER maturity; the object handed over is a
+                        copy.deepcopy of that process (what the pool branch of the engine simulates on).
+    """
+    import copy
+
     from rpylib.model.levydrivensde.levylibormodel import LevyLiborModel
     from rpylib.process.markovchain.markovchainsde import MarkovChainLevyLiborModel, MarkovChainSDE
 
@@ -326,11 +505,26 @@ def build_single(model, d, maturity):
     product.update(proc.process_representation)
     proc.initialisation(product)
     proc.pre_computation(1, product)
-    return proc
+    errors = []
+    if history == "reused":
+        try:
+            warm(proc, 0)
+            proc.one_simulation_cost(product)
+        except Exception as e:  # reported by the "fresh" object of the same configuration
+            errors.append(f"single: {type(e).__name__}")
+        proc.reset_one_simulation_cost()
+        product_b = make_product(model, _second_maturity(maturity))
+        product_b.update(proc.process_representation)
+        proc.initialisation(product_b)
+        proc.pre_computation(2, product_b)
+        proc = copy.deepcopy(proc)
+    return proc, errors
 
 
-HISTORIES = ["fast-forward", "same-object", "deepcopy"]
-HISTORY_NAME = {"fast-forward": "coupled", "same-object": "coupled-hist", "deepcopy": "coupled-hist-copy"}
+HISTORIES = ["fast-forward", "same-object", "deepcopy", "reprice"]
+HISTORY_NAME = {"fast-forward": "coupled", "same-object": "coupled-hist", "deepcopy": "coupled-hist-copy",
+                "reprice": "coupled-reprice"}
+SHORT_HISTORIES = ("single-reused", "coupling-l0-reused", "coupled-reprice")  # objects that run the words of length <= 2
 
 
 def build_coupling(model, d, level, maturity, history="fast-forward", warm=None):
@@ -340,7 +534,13 @@ def build_coupling(model, d, level, maturity, history="fast-forward", warm=None)
               "same-object":  Engine.price_with_constant_mc_paths_and_level - one object; at every level pre_computation, one
                               path simulated (warm(cp, lvl)), then next_level();
               "deepcopy":     Engine.price - the level l-1 object simulates, is deep-copied, and next_level() is called on the
-                              copy.
+                              copy;
+              "reprice":      a second Engine.price on one multilevel engine, with another product: the engine's coupling
+                              object is initialised and pre-computed, a deep copy of it goes through the "deepcopy" history
+                              up to `level` (simulating at every level, `level` included, and reading the simulation cost);
+                              then the SAME engine object is initialised and pre-computed with a product of another
+                              maturity, a new list of path managers is started, and a new deep copy goes through the
+                              "deepcopy" history again.  At level 0 this is the object "coupling-l0-reused".
     """
     import copy
 
@@ -354,25 +554,44 @@ def build_coupling(model, d, level, maturity, history="fast-forward", warm=None)
     pms = [MLMCPath(deterministic_path=cp.fine_process.deterministic_path, activate_spot_underlying=False)]
     cp.pre_computation(1, product)
     errors = []
-    for lvl in range(level):
-        if history != "fast-forward":
+
+    def climb(cp, pms, product, hist, simulate_at_top):
+        for lvl in range(level + 1):
+            if hist != "fast-forward" and (lvl < level or simulate_at_top):
+                cp.reset_one_simulation_cost()
+                cp.pre_computation(mc_paths=1, product=product)
+                try:
+                    warm(cp, lvl)
+                    cp.one_simulation_cost(product=product)
+                except Exception as e:  # reported by the configuration of that level, not by this one
+                    errors.append(f"level {lvl}: {type(e).__name__}")
+            if lvl == level:
+                break
+            if hist == "deepcopy":
+                cp = copy.deepcopy(cp)
+            cp.next_level(1, pms, product=product)
+        if hist != "fast-forward":
             cp.reset_one_simulation_cost()
             cp.pre_computation(mc_paths=1, product=product)
-            try:
-                warm(cp, lvl)
-            except Exception as e:  # reported by the configuration of that level, not by this one
-                errors.append(f"level {lvl}: {type(e).__name__}")
-            if history == "deepcopy":
-                cp = copy.deepcopy(cp)
-        cp.next_level(1, pms, product=product)
-    if history != "fast-forward":
-        cp.reset_one_simulation_cost()
-        cp.pre_computation(mc_paths=1, product=product)
+        return cp
+
+    if history == "reprice":
+        climb(copy.deepcopy(cp), pms, product, "deepcopy", True)
+        product = make_product(model, _second_maturity(maturity))
+        product.update(cp.fine_process.process_representation)
+        cp.initialisation(product)
+        pms = [MLMCPath(deterministic_path=cp.fine_process.deterministic_path, activate_spot_underlying=False)]
+        cp.pre_computation(1, product)
+        cp = climb(copy.deepcopy(cp), pms, product, "deepcopy", False)
+    else:
+        cp = climb(cp, pms, product, history, False)
     return cp, pms, errors
 
 
 def seam_of(cp, lvl):
-    """(owner, attribute, simulate) of the driver seam of a CouplingSDE standing at level lvl."""
+    """(owner, attribute, simulate) of the driver seam of a CouplingSDE standing at level lvl, or of a standalone process."""
+    if not hasattr(cp, "fine_process"):
+        return cp.markov_chain, "simulate_one_path", cp.simulate_one_path
     if lvl == 0:
         return cp.fine_process.markov_chain, "simulate_one_path", cp.simulate_one_path
     return cp.driver_coupling_process, "simulate_one_path_with_coupling", cp.simulate_one_path_with_coupling
@@ -404,7 +623,9 @@ _DRIFT_CACHE = {}
 
 
 def reference_drift(drv, level):
-    """Drift (d,) of a freshly built driver chain on a freshly built grid refined `level` times."""
+    """Drift (d,) of a freshly built driver chain on a freshly built grid refined `level` times.  A "reinit" twin is compared
+    with the drift of the DIRECTLY constructed driver: the twin has the same parameter values."""
+    drv = _base(drv)
     key = (drv, level)
     if key not in _DRIFT_CACHE:
         from rpylib.model.levydrivensde.levydrivensde import LevyDrivenSDEModel
@@ -607,10 +828,23 @@ def _as2d(arr, d):
     return arr.reshape(d, -1) if arr.ndim == 1 else arr
 
 
+def is_heavy(case):
+    """The Libor model on a copula driver: every initialisation costs a double quadrature (2 s).  These configurations keep
+    the histories they had (fresh / fast-forward, same-object, deepcopy) and get neither the re-priced objects nor a second
+    object of the same classes (the 1-d drivers cover both for the same classes)."""
+    return DRIVER_DIM[case["driver"]] == 2 and case["coef"]["kind"] == "libor-model"
+
+
+def x0_class(x0i):
+    return {"int": "x0=int", "int-array": "x0=int", "default": "x0=default"}.get(x0i, "x0=float")
+
+
 class Config:
     """One configuration with its real objects and its oracle pieces."""
 
-    def __init__(self, case, maturity=3.0, warm=None):
+    def __init__(self, case, maturity=3.0, warm=None, second=False):
+        """second=True: the configuration of the second object of the same classes (other_case): the standalone process /
+        the fast-forward coupling only, names prefixed with 'other-'."""
         _quiet()
         self.case = case
         self.drv = case["driver"]
@@ -618,35 +852,47 @@ class Config:
         self.c = case["coef"]
         self.level = case["level"]
         self.label = coef_label(self.c, self.d)
-        self.x0cls = "x0=int" if case["x0"] == "int" else "x0=float"
+        self.x0cls = x0_class(case["x0"])
+        self.drvcls = f"driver-d={self.d}" + ("-reinit" if _reinit(self.drv) else "")
         self.model, self.x0 = make_model(self.drv, self.c, case["x0"])
-        self.m = self.c["m"]
+        self.m = self.x0.size
         self.objects = []  # (name, obj, simulate, seam owner, seam attribute, deterministic path, sde owner)
+        self.warmup_errors = []
+        pre = "other-" if second else ""
+        light = second or is_heavy(case)
         if self.level == 0:
-            proc = build_single(self.model, self.d, maturity)
-            self.objects.append(("single", proc, proc.simulate_one_path, proc.markov_chain, "simulate_one_path",
-                                 proc.deterministic_path, proc))
-            model2, _ = make_model(self.drv, self.c, case["x0"])
-            cp, pms, _ = build_coupling(model2, self.d, 0, maturity)
-            self.objects.append(("coupling-l0", cp, cp.simulate_one_path, cp.fine_process.markov_chain, "simulate_one_path",
-                                 pms[0].deterministic_path, cp.fine_process))
+            for history in (["fresh"] if light else ["fresh", "reused"]):
+                model_h, _ = make_model(self.drv, self.c, case["x0"])
+                if history == "fresh":
+                    self.model = model_h
+                proc, errs = build_single(model_h, self.d, maturity, history=history, warm=warm)
+                self.warmup_errors += errs
+                self.objects.append((pre + ("single" if history == "fresh" else "single-reused"), proc, proc.simulate_one_path,
+                                     proc.markov_chain, "simulate_one_path", proc.deterministic_path, proc))
+            for history in (["fast-forward"] if light else ["fast-forward", "reprice"]):
+                model_h, _ = make_model(self.drv, self.c, case["x0"])
+                cp, pms, errs = build_coupling(model_h, self.d, 0, maturity, history=history, warm=warm)
+                self.warmup_errors += errs
+                self.objects.append((pre + ("coupling-l0" if history == "fast-forward" else "coupling-l0-reused"), cp,
+                                     cp.simulate_one_path, cp.fine_process.markov_chain, "simulate_one_path",
+                                     pms[0].deterministic_path, cp.fine_process))
             self.mus = [reference_drift(self.drv, 0)]
         else:
-            self.warmup_errors = []
-            for history in HISTORIES:
+            for history in (["fast-forward"] if second else HISTORIES[:3] if light else HISTORIES):
                 model_h, _ = make_model(self.drv, self.c, case["x0"])
                 if history == "fast-forward":
                     self.model = model_h
                 cp, pms, errs = build_coupling(model_h, self.d, self.level, maturity, history=history, warm=warm)
                 self.warmup_errors += errs
-                self.objects.append((HISTORY_NAME[history], cp, cp.simulate_one_path_with_coupling, cp.driver_coupling_process,
-                                     "simulate_one_path_with_coupling", pms[-1].deterministic_path, cp.fine_process))
+                self.objects.append((pre + HISTORY_NAME[history], cp, cp.simulate_one_path_with_coupling,
+                                     cp.driver_coupling_process, "simulate_one_path_with_coupling", pms[-1].deterministic_path,
+                                     cp.fine_process))
             self.mus = [reference_drift(self.drv, self.level), reference_drift(self.drv, self.level - 1)]
         self.coupled = self.level > 0
 
     def key(self, name, comp, failure, tcls):
         comp = f":{comp}" if comp else ""
-        return f"C16:euler:{name}{comp}:{self.label}:{failure}:driver-d={self.d}:{tcls}:{self.x0cls}"
+        return f"C16:euler:{name}{comp}:{self.label}:{failure}:{self.drvcls}:{tcls}:{self.x0cls}"
 
     def compare(self, sh, name, obj_model, sde_owner, det_path, sde_path, drv_times, drv_W, drv_L, what):
         """Evaluate the oracle for one returned SDE path against the driver path (arrays as handed over by the driver)."""
@@ -658,7 +904,12 @@ class Config:
         if rt.shape != times.shape or not np.array_equal(rt, times):
             sh.violation(self.key(name, "", "times-differ", tcls), f"{what}: returned times {rt.tolist()} != driver times {times.tolist()}", None)
             return False
-        sol = np.asarray(det_path(times) + sde_path.value(), dtype=float)
+        try:
+            sol = np.asarray(det_path(times) + sde_path.value(), dtype=float)
+        except ValueError as e:  # the components of the returned path do not have the length of its times
+            sh.violation(self.key(name, "", "solution-shape-differs", tcls), f"{what}: deterministic path + returned value raises {e!r} "
+                         f"for {times.size} times", None)
+            return False
         comps = [("fine", 0), ("coarse", 1)] if self.coupled else [("", None)]
         expected_shape = ((2, m, times.size) if self.coupled else (m, times.size))
         if sol.shape != expected_shape:
@@ -725,83 +976,127 @@ def expected_layout(coupled, d, n):
 
 def check_case(sh, case):
     _quiet()
-    {"euler": _sub_euler, "captured": _sub_captured, "df": _sub_df}[case["sub"]](sh, case)
+    {"euler": _sub_euler, "captured": _sub_captured, "df": _sub_df, "pure": _sub_pure}[case["sub"]](sh, case)
 
 
-def _build(sh, case, maturity, warm=None):
+def _build(sh, case, maturity, warm=None, second=False):
     """Build the configuration; a failure to build the real objects is reported (the constructors are part of the way users
     reach the scheme)."""
     d = DRIVER_DIM[case["driver"]]
     label = coef_label(case["coef"], d)
-    x0cls = "x0=int" if case["x0"] == "int" else "x0=float"
+    x0cls = x0_class(case["x0"])
     try:
-        cfg = Config(case, maturity, warm)
-        if getattr(cfg, "warmup_errors", None):
+        cfg = Config(case, maturity, warm, second=second)
+        if cfg.warmup_errors:
             sh.count("warmup_simulations_that_raised", len(cfg.warmup_errors))
         return cfg
     except Exception as e:
-        proc = "single" if case["level"] == 0 else "coupled"
-        sh.violation(f"C16:euler:{proc}:{label}:construction-raises-{type(e).__name__}:driver-d={d}:level={case['level']}:{x0cls}",
+        proc = ("other-" if second else "") + ("single" if case["level"] == 0 else "coupled")
+        drvcls = f"driver-d={d}" + ("-reinit" if _reinit(case["driver"]) else "")
+        sh.violation(f"C16:euler:{proc}:{label}:construction-raises-{type(e).__name__}:{drvcls}:level={case['level']}:{x0cls}",
                      f"building the process for {label} on driver {case['driver']} at level {case['level']} raises {e!r}", None)
         return None
 
 
+def _run_words(sh, cfg, case, letters, words, tag=""):
+    """Run the scripted words (tuples of letter indices), in order, on every object of the configuration and evaluate the oracle.
+    -> (number of words, number of fully agreeing (word, object) pairs, last agreeing path).  A violation carries the words
+    that lead to it (`only_words`): the word itself, preceded by the last word of the preceding phase when the phase is a
+    history (tag)."""
+    n_ok = 0
+    n_words = 0
+    last = None
+    previous = case.get("_previous_word")
+    for idx in words:
+        word = [letters[i] for i in idx]
+        n_words += 1
+        history = ([list(previous)] if previous is not None and tag else []) + [list(idx)]
+        sh.case = dict({k: v for k, v in case.items() if not k.startswith("_")}, only_words=history)
+        for (name, obj, simulate, seam_owner, seam_attr, det_path, sde_owner) in cfg.objects:
+            if len(idx) > 2 and name in SHORT_HISTORIES:
+                continue  # the re-used / re-priced objects run the words of length <= 2
+            if len(idx) > 2 and name in ("coupled-hist", "coupled-hist-copy") and case["tier"] == "thorough":
+                continue  # thorough: the two history variants run the words of length <= 2 (756 of them)
+            path = scripted_path(word, cfg.coupled, cfg.d)
+            keep = (path.jump_times.copy(), path.diffusion_path.copy(), path.jump_path.copy())
+            calls = []
+
+            def scripted(_p=path, _c=calls):
+                _c.append(1)
+                return _p
+
+            setattr(seam_owner, seam_attr, scripted)
+            what = f"{name} level {cfg.level}, driver {cfg.drv}, word {list(idx)}{tag}"
+            tcls = time_class(cfg.c, keep[0])
+            try:
+                res = simulate()
+            except Exception as e:
+                sh.count("evaluations")
+                sh.violation(cfg.key(name, "", f"raises-{type(e).__name__}", tcls), f"{what}: simulate raises {e!r}",
+                             {"times": keep[0], "W": keep[1], "L": keep[2]})
+                continue
+            if len(calls) != 1:
+                sh.violation(cfg.key(name, "", "driver-path-not-consumed-exactly-once", tcls), f"{what}: {len(calls)} driver paths requested", None)
+            obj_model = obj.model
+            if cfg.compare(sh, name, obj_model, sde_owner, det_path, res, *keep, what):
+                n_ok += 1
+                last = res
+    return n_words, n_ok, last
+
+
 def _sub_euler(sh, case):
+    d = DRIVER_DIM[case["driver"]]
+    tier = case["tier"]
     with forbidden_rng():
-        cfg = _build(sh, case, maturity=3.0, warm=scripted_warm(DRIVER_DIM[case["driver"]], case["tier"]))
+        # the second object of the same classes (other parameters) is built FIRST and simulates FIRST: state kept at class or
+        # module level by whoever comes first then shows on the objects of the case, and the other way round when such state
+        # was left by an earlier case of this worker process (the second object is compared with its own oracle as well)
+        ocase = other_case(case)
+        other = None if is_heavy(case) else _build(sh, ocase, maturity=3.0, warm=scripted_warm(d, tier), second=True)
+        cfg = _build(sh, case, maturity=3.0, warm=scripted_warm(d, tier))
         if cfg is None:
             return
         sh.cls(f"coef:{cfg.label}")
         sh.cls(f"driver:{cfg.drv}")
         sh.cls(f"level:{cfg.level}")
-        letters = _letters(cfg.d, cfg.coupled, case["tier"])
-        n_ok = 0
-        n_words = 0
+        letters = _letters(cfg.d, cfg.coupled, tier)
+        nl = len(letters)
+        max_steps = case.get("max_steps", 3)
+        ones = [(i,) for i in range(nl)]
+        other_words = ones + [(1, 6), (6, 1), (4, 4), (3, 5)]
+        n_ok = n_words = n_other = 0
         last = None
-        if case.get("only_word") is not None:  # replay of one word of the configuration
-            words = [tuple(case["only_word"])]
+        if case.get("only_words") is not None or case.get("only_word") is not None:  # replay of the words of one violation
+            words = [tuple(w) for w in case["only_words"]] if case.get("only_words") is not None else [tuple(case["only_word"])]
+            phases = [("other", other_words, ""), ("main", words, "")]  # the second object still comes first
         else:
-            words = itertools.chain.from_iterable(
-                itertools.product(range(len(letters)), repeat=n) for n in range(1, case.get("max_steps", 3) + 1))
-        for idx in words:
-            word = [letters[i] for i in idx]
-            n_words += 1
-            sh.case = dict(case, only_word=list(idx))  # a violation carries the word, so that its replay runs that word alone
-            for (name, obj, simulate, seam_owner, seam_attr, det_path, sde_owner) in cfg.objects:
-                if len(idx) > 2 and name in ("coupled-hist", "coupled-hist-copy") and case["tier"] == "thorough":
-                    continue  # thorough: the two history variants run the words of length <= 2 (756 of them)
-                path = scripted_path(word, cfg.coupled, cfg.d)
-                keep = (path.jump_times.copy(), path.diffusion_path.copy(), path.jump_path.copy())
-                calls = []
-
-                def scripted(_p=path, _c=calls):
-                    _c.append(1)
-                    return _p
-
-                setattr(seam_owner, seam_attr, scripted)
-                what = f"{name} level {cfg.level}, driver {cfg.drv}, word {list(idx)}"
-                tcls = time_class(cfg.c, keep[0])
-                try:
-                    res = simulate()
-                except Exception as e:
-                    sh.count("evaluations")
-                    sh.violation(cfg.key(name, "", f"raises-{type(e).__name__}", tcls), f"{what}: simulate raises {e!r}",
-                                 {"times": keep[0], "W": keep[1], "L": keep[2]})
-                    continue
-                if len(calls) != 1:
-                    sh.violation(cfg.key(name, "", "driver-path-not-consumed-exactly-once", tcls), f"{what}: {len(calls)} driver paths requested", None)
-                obj_model = obj.model
-                if cfg.compare(sh, name, obj_model, sde_owner, det_path, res, *keep, what):
-                    n_ok += 1
-                    last = res
+            longer = list(itertools.chain.from_iterable(itertools.product(range(nl), repeat=n) for n in range(2, max_steps + 1)))
+            phases = [("other", other_words, ""), ("main", ones, ""), ("other", other_words, " (after the objects of the case)"),
+                      ("main", longer, ""),
+                      # a SHORTER path after the longest ones, on the same objects
+                      ("main", ones, " (again, after the longest words)")]
+        previous = None
+        for who, words, tag in phases:
+            if who == "other":
+                if other is not None:
+                    n_other += _run_words(sh, other, dict(ocase, _previous_word=None), letters, words, tag)[0]
+                continue
+            a, b, c = _run_words(sh, cfg, dict(case, _previous_word=previous), letters, words, tag)
+            n_words += a
+            n_ok += b
+            last = c if c is not None else last
+            previous = words[-1] if words else previous
         sh.case = case
         sh.count("words", n_words)
+        sh.count("words_on_second_object", n_other)
         sh.nontriv()
         fin = None if last is None else np.round(np.asarray(last.value())[..., -1], 9).tolist()
         sh.outcome((cfg.drv, cfg.label, case["x0"], cfg.level, n_ok, fin))
-        if case["x0"] in (0, None) and last is not None and cfg.drv != "cgmy12":
+        if case["x0"] in (0, None) and last is not None and cfg.drv not in ("cgmy12", "cgmy12@reinit"):
             sh.sample({"sub": "euler", "driver": cfg.drv, "coef": cfg.label, "level": cfg.level, "words": n_words,
-                       "objects": [o[0] for o in cfg.objects], "driver_drifts": [mu.tolist() for mu in cfg.mus],
+                       "objects": [o[0] for o in cfg.objects], "second_object": None if other is None else
+                       {"driver": other.drv, "coef": other.c, "objects": [o[0] for o in other.objects]},
+                       "driver_drifts": [mu.tolist() for mu in cfg.mus],
                        "last_word_final_value_minus_x0": fin})
 
 
@@ -859,9 +1154,146 @@ def _sub_captured(sh, case):
                     n_ok += 1
         sh.nontriv()
         sh.count("captured_paths", len(sizes))
-        sh.outcome((cfg.drv, cfg.label, cfg.level, n_ok, sizes))
+        sh.outcome((cfg.drv, cfg.label, cfg.m, cfg.level, n_ok, sizes))
         if cfg.drv == "hem":
             sh.sample({"sub": "captured", "driver": cfg.drv, "coef": cfg.label, "level": cfg.level, "path_lengths": sizes, "ok": n_ok})
+
+
+# -------------------------------------------------------------------------------------------------------------- pure
+
+PURE_T = [0.0, 0.5, 0.75, 1.0, 1.5, 1.75, 2.0, 2.5, 3.0, 3.25, 3.5, 4.0]
+PURE_ARGS = {
+    "main": {"tenors": [1, 2, 3, 4], "scale": 1.0, "rates": [0.01, 0.03, 0.02], "driver": "hem"},
+    "other": {"tenors": [0.75, 1.75, 3.25, 4.0], "scale": 0.6, "rates": [0.03, 0.005, 0.04], "driver": "hem-b"},
+}
+PURE_X = [[[0.02], [0.02], [0.02]], [[0.01], [0.03], [0.02]]]
+PURE_WHATS = ["LiborSDEFunction:direct", "ForwardMarketSDEFunction:direct", "LiborSDEFunction:LevyLiborModel",
+              "ForwardMarketSDEFunction:LevyForwardModel", "sde_drift:MarkovChainLevyLiborModel", "df:LevyLiborModel", "df:LevyForwardModel"]
+
+
+def _pure_objects(which):
+    """The objects of one argument set ("main" | "other"): what -> (owner object, function owner -> callable (t, x), states x).
+    Within one argument set every object of a class has the same parameters (the reference process is one consistent world)."""
+    from rpylib.model.levydrivensde import levydrivensde as S
+    from rpylib.model.levydrivensde.levyforwardmodel import LevyForwardModel
+    from rpylib.model.levydrivensde.levylibormodel import LevyLiborModel
+
+    _quiet()
+    arg = PURE_ARGS[which]
+    m, d = 3, 1
+    tenors, rates = arg["tenors"], arg["rates"]
+    cols = [np.array(x, dtype=float) for x in PURE_X]
+    states = cols + [np.stack(cols)]  # the column of the single scheme, the (fine, coarse) stack of the coupled scheme
+    libor = LevyLiborModel(libor_rates=list(rates), tenors=list(tenors), sigma=_sigma(m, d, arg["scale"]), driver=make_driver(arg["driver"]))
+    forward = LevyForwardModel(ois_rates=list(rates), tenors=list(tenors), sigma=_sigma(m, d, arg["scale"]), driver=make_driver(arg["driver"]))
+    proc, _ = build_single(libor, d, float(tenors[0]))
+    same = lambda o: o  # noqa: E731
+    return {
+        "LiborSDEFunction:direct": (S.LiborSDEFunction(sigma=_sigma(m, d, arg["scale"]), tenors=np.array(tenors, dtype=float)), same, states),
+        "ForwardMarketSDEFunction:direct": (S.ForwardMarketSDEFunction(sigma=_sigma(m, d, arg["scale"]), tenors=np.array(tenors, dtype=float)), same, states),
+        "LiborSDEFunction:LevyLiborModel": (libor, lambda o: o.a, states),
+        "ForwardMarketSDEFunction:LevyForwardModel": (forward, lambda o: o.a, states),
+        "sde_drift:MarkovChainLevyLiborModel": (proc, lambda o: o.sde_drift, cols),
+        "df:LevyLiborModel": (libor, lambda o: (lambda t, x: o.df(t)), [None]),
+        "df:LevyForwardModel": (forward, lambda o: (lambda t, x: o.df(t)), [None]),
+    }
+
+
+def _pure_eval(entry, descending=False):
+    """Values on PURE_T x states, in ascending time order whatever the order of evaluation. -> nested lists"""
+    owner, get, states = entry
+    f = get(owner)
+    order = list(reversed(range(len(PURE_T)))) if descending else list(range(len(PURE_T)))
+    out = [None] * len(PURE_T)
+    for i in order:
+        out[i] = [np.asarray(f(PURE_T[i], None if x is None else x.copy()), dtype=float).tolist() for x in states]
+    return out
+
+
+def _pure_reference_main(which):
+    """Entry point of the fresh interpreter process: prints the table of one argument set."""
+    import json
+
+    objs = _pure_objects(which)
+    print("@@" + json.dumps({w: _pure_eval(objs[w]) for w in PURE_WHATS}))
+
+
+def _pure_reference(which):
+    import json
+    import subprocess
+    import sys
+
+    import os
+
+    code = "import sys; from checks import c16_sde as M; M._pure_reference_main(sys.argv[1])"
+    env = dict(os.environ, PYTHONPATH=os.pathsep.join(q for q in sys.path if q))  # the same import path: the same tree
+    r = subprocess.run([sys.executable, "-c", code, which], capture_output=True, text=True, timeout=900, env=env)
+    lines = [ln for ln in r.stdout.splitlines() if ln.startswith("@@")]
+    if r.returncode != 0 or len(lines) != 1:
+        raise RuntimeError(f"reference process for '{which}' failed (exit {r.returncode}): {r.stderr[-400:]}")
+    return json.loads(lines[0][2:])
+
+
+def _same_table(a, b):
+    if len(a) != len(b):
+        return None, False
+    for i, (ra, rb) in enumerate(zip(a, b)):
+        for xa, xb in zip(ra, rb):
+            xa, xb = np.asarray(xa, dtype=float), np.asarray(xb, dtype=float)
+            if xa.shape != xb.shape or not np.allclose(xa, xb, rtol=1e-12, atol=0.0, equal_nan=False):
+                return i, False
+    return None, True
+
+
+def _sub_pure(sh, case):
+    """a(t, x), the Libor drift and df(t) are FUNCTIONS: their value depends on the arguments and on what the object was
+    constructed with, not on what other objects of the class exist or on what was evaluated before.  Reference = the library
+    itself in a fresh interpreter process that builds one argument set only and evaluates in ascending time order."""
+    import copy
+
+    with forbidden_rng():
+        others = _pure_objects("other")  # built first
+        mains = _pure_objects("main")
+        try:
+            ref = {"main": _pure_reference("main"), "other": _pure_reference("other")}
+        except Exception as e:  # no reference: nothing is compared (a cap, never an alarm); raising evaluations still show
+            sh.cap(f"pure: the fresh interpreter process gave no reference table, nothing compared: {e}")
+            ref = None
+        steps = [
+            ("second-object-read-first", "other", lambda w: _pure_eval(others[w])),
+            ("after-second-object:descending-times", "main", lambda w: _pure_eval(mains[w], descending=True)),
+            ("read-again", "main", lambda w: _pure_eval(mains[w])),
+            ("deepcopy", "main", lambda w: _pure_eval((copy.deepcopy(mains[w][0]),) + mains[w][1:])),
+            ("fresh-twin", "main", None),
+            ("second-object-read-again:descending-times", "other", lambda w: _pure_eval(others[w], descending=True)),
+        ]
+        n_ok = 0
+        for step, which, run in steps:
+            if run is None:
+                twins = _pure_objects("main")
+                run = lambda w, _t=twins: _pure_eval(_t[w])  # noqa: E731
+            for w in PURE_WHATS:
+                sh.count("evaluations", len(PURE_T))
+                sh.cls(f"pure:{w}")
+                try:
+                    got = run(w)
+                except Exception as e:
+                    sh.violation(f"C16:pure:{w}:raises-{type(e).__name__}:{step}", f"{w} ({which} arguments), step {step}: raises {e!r}", None)
+                    continue
+                if ref is None:
+                    continue
+                i, ok = _same_table(got, ref[which][w])
+                if ok:
+                    n_ok += 1
+                    continue
+                sh.violation(f"C16:pure:{w}:value-depends-on-history:{step}",
+                             f"{w} built with the '{which}' arguments {PURE_ARGS[which]}: at t={PURE_T[i] if i is not None else None} the value is "
+                             f"{got[i] if i is not None else got}, a fresh interpreter process that builds this argument set alone gives "
+                             f"{ref[which][w][i] if i is not None else ref[which][w]}", None)
+        sh.nontriv()
+        sh.outcome(("pure", n_ok))
+        sh.sample({"sub": "pure", "whats": PURE_WHATS, "times": PURE_T, "steps": [s_[0] for s_ in steps], "agreeing": n_ok,
+                   "reference_main_at_t=1": None if ref is None else {w: ref["main"][w][3] for w in PURE_WHATS}})
 
 
 # ---------------------------------------------------------------------------------------------------------------- df
@@ -881,10 +1313,18 @@ def _rates(name, m):
         r = [0.02] * m
         r[0] = 0.0
         return r
+    if name in ("scalar2", "scalar5"):  # one float instead of a list: a curve of one period
+        return {"scalar2": 0.02, "scalar5": 0.05}[name]
     raise ValueError(name)
 
 
-def _df_model(case):
+OTHER_RATES = {"flat2": "rising", "flat10": "rising", "rising": "flat10", "one-zero": "flat10", "first-zero": "flat10", "scalar2": "scalar5"}
+
+
+def _df_model(case, second=False):
+    """-> (model, tenors).  second=True: the second object of the same class (another curve on the same tenors), for the rate
+    models and the exponential models; None for the others."""
+    from mc import alphabets as A
     from rpylib.model.levydrivensde.levydrivensde import LevyDrivenSDEModel
     from rpylib.model.levydrivensde.levyforwardmodel import LevyForwardModel
     from rpylib.model.levydrivensde.levylibormodel import LevyLiborModel
@@ -896,10 +1336,20 @@ def _df_model(case):
         tenors = list(case["tenors"])
         m = len(tenors) - 1
         d = DRIVER_DIM[case["driver"]]
-        rates = _rates(case["rates"], m)
-        if name == "LevyForwardModel":
-            return LevyForwardModel(ois_rates=rates, tenors=tenors, sigma=_sigma(m, d), driver=make_driver(case["driver"])), tenors
-        return LevyLiborModel(libor_rates=rates, tenors=tenors, sigma=_sigma(m, d), driver=make_driver(case["driver"])), tenors
+        rates = _rates(OTHER_RATES[case["rates"]] if second else case["rates"], m)
+        t_arg = tenors
+        if case.get("args") == "array":
+            rates, t_arg = np.array(rates), np.array(tenors, dtype=float)
+        kw = "ois_rates" if name == "LevyForwardModel" else "libor_rates"
+        cls = LevyForwardModel if name == "LevyForwardModel" else LevyLiborModel
+        return cls(**{kw: rates}, tenors=t_arg, sigma=_sigma(m, d), driver=make_driver(case["driver"])), tenors
+    if name == "spec":
+        spec = case["spec"]
+        if second:
+            spec = dict(spec, r=spec["r"] + 0.03)
+        return A.make_model(spec), None
+    if second:
+        return None, None
     if name == "levy-hem":
         return make_driver("hem"), None
     if name == "levy-cgmy12":
@@ -937,10 +1387,19 @@ def _where(t, tenors):
 
 
 def _sub_df(sh, case):
+    # the second object of the same class (another curve, same tenors) is built and read first: state kept at class or module
+    # level by whoever comes first shows on the model of the case
+    other, _ = _df_model(case, second=True)
     model, tenors = _df_model(case)
     cls = type(model).__name__
     sh.cls(f"df:{cls}")
     t_last = float(tenors[-1]) if tenors else 10.0
+    if other is not None:
+        for k in range(41):
+            try:
+                other.df(t_last * k / 40.0)
+            except Exception:  # the second object is judged by its own case
+                pass
     mesh = {t_last * k / 400.0 for k in range(401)}
     if tenors:
         for T in tenors:
@@ -971,8 +1430,8 @@ def _sub_df(sh, case):
             w = w1 if w1.startswith("at-") else w2
             sh.violation(f"C16:df:{cls}:increases:{w}", f"df({t1!r}) = {v1!r} < df({t2!r}) = {v2!r} (rates {case.get('rates')}, tenors {tenors})",
                          {"t1": t1, "t2": t2, "df1": v1, "df2": v2})
+    at = dict(zip(mesh, vals))
     if tenors:
-        at = dict(zip(mesh, vals))
         for k, T in enumerate(tenors):
             T = float(T)
             for t in (T - 1e-9, T + 1e-9):
@@ -983,8 +1442,48 @@ def _sub_df(sh, case):
                         sh.violation(f"C16:df:{cls}:discontinuous:{_where(T, tenors)}:{side}",
                                      f"df({t!r}) = {at[t]!r} but df({T!r}) = {at[T]!r} (rates {case.get('rates')}, tenors {tenors})",
                                      {"t": t, "T": T, "df_t": at[t], "df_T": at[T]})
+    # history on the re-used model object: the mesh once more, in DESCENDING order, interleaved with a continuity probe
+    # df(t + 1e-9) at every mesh point (not only at the tenors) and with the second object: df is a function of t
+    for t in reversed(mesh):
+        v1 = at[t]
+        if math.isnan(v1):
+            continue
+        sh.count("evaluations", 2)
+        try:
+            if other is not None:
+                other.df(t)
+        except Exception:
+            pass
+        try:
+            v2 = float(model.df(t))
+            v3 = float(model.df(t + 1e-9)) if t + 1e-9 <= t_last else v2
+        except Exception as e:
+            sh.violation(f"C16:df:{cls}:raises-{type(e).__name__}:{_where(t, tenors)}:second-reading", f"df({t!r}) read a second time raises {e!r}", None)
+            continue
+        if v2 != v1:
+            sh.violation(f"C16:df:{cls}:second-reading-differs:{_where(t, tenors)}",
+                         f"df({t!r}) = {v1!r} at the first reading (ascending mesh) and {v2!r} at the second (descending mesh, the second "
+                         f"object of the same class read in between); rates {case.get('rates')}, tenors {tenors}", {"t": t, "first": v1, "second": v2})
+        elif not abs(v3 - v2) <= 1e-7:
+            sh.violation(f"C16:df:{cls}:discontinuous:{_where(t, tenors)}:right",
+                         f"df({t + 1e-9!r}) = {v3!r} but df({t!r}) = {v2!r} (rates {case.get('rates')}, tenors {tenors})", {"t": t, "df_t": v2, "df_t+": v3})
+    # times of other number types (a product maturity is often a Python int): the same value as for the float
+    if tenors:
+        for T in tenors:
+            if float(T) in at and not math.isnan(at[float(T)]) and float(T) == int(T):
+                for name, t in (("int", int(T)), ("numpy-int", np.int64(int(T))), ("numpy-float", np.float64(T))):
+                    sh.count("evaluations")
+                    try:
+                        v = float(model.df(t))
+                    except Exception as e:
+                        sh.violation(f"C16:df:{cls}:raises-{type(e).__name__}:{_where(float(T), tenors)}:time-type={name}", f"df({t!r}) raises {e!r}", None)
+                        continue
+                    if not core.close(v, at[float(T)], rtol=1e-12):
+                        sh.violation(f"C16:df:{cls}:depends-on-number-type-of-time:{_where(float(T), tenors)}:time-type={name}",
+                                     f"df({t!r}) = {v!r} but df({float(T)!r}) = {at[float(T)]!r}", None)
     sh.nontriv()
-    sh.outcome((case["model"], case.get("rates"), case.get("tenors"), [round(v, 12) for v in vals[::50] if not math.isnan(v)]))
-    if case.get("rates") == "rising" and case.get("tenors") == [1, 2, 3]:
+    label = case["model"] if case["model"] != "spec" else repr(sorted(case["spec"].items(), key=str))
+    sh.outcome((label, case.get("rates"), case.get("tenors"), case.get("args"), [round(v, 12) for v in vals[::50] if not math.isnan(v)]))
+    if case.get("rates") == "rising" and case.get("tenors") == [1, 2, 3] and not case.get("args"):
         sh.sample({"sub": "df", "model": cls, "rates": _rates("rising", 2), "tenors": tenors,
                    "df": {str(t): at[t] for t in (0.0, 0.5, 1.0 - 1e-9, 1.0, 1.0 + 1e-9, 2.0, 2.0 + 1e-9, 3.0) if t in at}})
